@@ -188,3 +188,17 @@ Example C14_spec_defaults_nonvacuous :
              aget z_inner ia = Some (VSpec (path_of z_fam z_Oth) [([121]%N, VInt 7)] []).
 Proof. split; [vm_compute; reflexivity|]. split; [vm_compute; reflexivity|]. eexists. vm_compute. split; reflexivity. Qed.
 Print Assumptions C14_spec_defaults_nonvacuous.
+
+(* finding class 2 (open: string-default-unchecked): the code as it is accepts an option default given as a string that
+   names a class which is NOT a subclass of the declared type (x_Leaf for the declared type x_Top) when no item
+   addresses the option: the accepted "value" is the string itself - not valid - and it is handed on by
+   instantiate_classes; the same class_path as a dict default is rejected (run). *)
+Theorem C14_string_default_refuted :
+  exists (F : family) (base cp : str),
+    fam_wf F = true /\ dstr_class F base (Some (VSpec cp [] [])) [] true = 2%N /\
+    run F base (Some (VSpec cp [] [])) [] = ORej /\
+    exists v io, run_dstr restr run F base (Some (VSpec cp [] [])) [] true = OAcc v io /\ valid F base v = false.
+Proof.
+  exists x_fam, x_Top, (path_of x_fam x_Leaf). vm_compute. repeat split; try reflexivity. eexists; eexists; split; reflexivity.
+Qed.
+Print Assumptions C14_string_default_refuted.
